@@ -238,7 +238,7 @@ func runScripts(g *vlib.Rng) {
 }
 
 func runRecords(g *vlib.Rng) {
-	n := r.N(500, 12000)
+	n := r.N(500, 8000)
 	for i := 0; i < n; i++ {
 		maxN, budget := 3000, 20000
 		if i%40 == 0 {
@@ -248,8 +248,18 @@ func runRecords(g *vlib.Rng) {
 			maxN, budget = 70000, 600000
 		}
 		rec := genRec(g, maxN, budget)
-		if len(rec.Live) > 4000 && !r.Thorough() {
-			rec.Live = rec.Live[:4000]
+		// the model's decoder is a list program (outs[idx] = … costs idx steps): keep idx × live bounded.
+		// Dense records with 30001 outputs are in the corpus (thorough tier) once per mode.
+		if lim := 12000000 / rec.N; len(rec.Live) > lim && lim >= 1 {
+			keep := rec.Live[:0:0]
+			step := len(rec.Live) / lim
+			for k := 0; k < len(rec.Live) && len(keep) < lim-1; k += step + 1 {
+				keep = append(keep, rec.Live[k])
+			}
+			if last := rec.Live[len(rec.Live)-1]; len(keep) == 0 || keep[len(keep)-1].Idx != last.Idx {
+				keep = append(keep, last)
+			}
+			rec.Live = keep
 		}
 		vouts := pickVouts(g, rec)
 		for _, sc := range rec.Live {
